@@ -686,7 +686,7 @@ def write_evidence(prop, spec, tier, seed, results, wall, violations, known_hits
     }
     # evidence describes /repo itself: runs against another tree (VERIF_REPO, used to
     # evaluate seeded changes) write theirs to a scratch directory instead
-    evdir = os.path.join(VERIF, "evidence") if (os.path.realpath(REPO) == "/repo" and not partial) else "/var/tmp/lcdb-verif-evidence-scratch"
+    evdir = os.path.join(VERIF, "evidence") if (os.path.realpath(REPO) == "/repo" and not partial and not os.environ.get("VERIF_EVIDENCE_SCRATCH")) else "/var/tmp/lcdb-verif-evidence-scratch"
     os.makedirs(evdir, exist_ok=True)
     with open(os.path.join(evdir, prop + ".json"), "w") as f:
         json.dump(ev, f, indent=1)
